@@ -3,8 +3,9 @@
   from the encoder-only tables.  No table facts are used.
 -/
 import RdfModel.Proofs.C05NQLen
+import RdfModel.Props.C07NQDefs
 namespace RdfModel.Proofs.C07NQ
-open RdfModel RdfModel.NQ
+open RdfModel RdfModel.NQ RdfModel.C07NQ
 
 /-! ### per-step inclusion -/
 
@@ -152,13 +153,6 @@ theorem captureBNode_congr (hu : T.pnCharsU = T'.pnCharsU) (hp : T.pnChars = T'.
     (inp : List Nat) : captureBNode T e inp = captureBNode T' e inp := by
   cases inp <;> simp [captureBNode, hu, bnLoop_congr hp]
 
-
-/-- The tables the decoder model reads agree. -/
-structure DecoderTablesEqual (T T' : Tables) : Prop where
-  hexDec : T.hexDec = T'.hexDec
-  pnCharsU : T.pnCharsU = T'.pnCharsU
-  pnChars : T.pnChars = T'.pnChars
-  space : T.space = T'.space
 
 theorem isSpace_congr (hs : T.space = T'.space) (c : Nat) : isSpace T c = isSpace T' c := by
   simp only [isSpace, hs]
